@@ -15,6 +15,8 @@ import Sqfs.Model.C12TarStream
                                                 one archive member through the tar iterator (Sqfs.IoLoops.tarMemberRun);
                                                 <sparse> = "-" | off:count,off:count,...
   tarspec <B> <data> <recsize> <filesize> <sparse> <op,...>   the same run over the ideal window stream, no OS
+  xtarstrm <B> <BX> <s|n> <data> <recsize> <filesize> <sparse> <op,...> <script>
+                                                the member run through the transforming istream (pass-through codec)
   lines   <flags,flags,...> <data>              the byte-at-a-time scanner Spec.nextLine applied repeatedly
 
   <data>   = "-" | hex | g<seed>:<len>:<mode>   (generated, same generator as the harness) | <data>+<data>
@@ -282,6 +284,20 @@ def step (line : String) : String :=
         " st=" ++ (if it.stream.eof then "1" else "0") ++ "," ++ toString it.stream.off ++ "," ++ toString it.stream.buf.length ++
         " " ++ showOstream o ++ tail os
     | _, _, _, _, _, _, _ => "bad-op"
+  | ["xtarstrm", b, bx, fl, d, rs, fs, sp, ops, sc] =>
+    match b.toNat?, bx.toNat?, parseData d, rs.toNat?, fs.toNat?, parseSparse sp, parseOps ops, parseScript sc with
+    | some B, some BX, some data, some rs, some fs, some sp, some ops, some sc =>
+      if (fl ≠ "s" ∧ fl ≠ "n") ∨ B = 0 then "bad-op" else
+      let limit := 4 * data.length + 1000
+      match tarMemberRun (xfrmStream (fileStream B) passCodec BX limit) ⟨IStream.init data, 0, 0, []⟩ ⟨rs, fs, sp⟩
+          (OStream.init (fl = "n")) ops ⟨sc, []⟩ with
+      | (n1, obs, n2, it, o, os) =>
+        showTarRun (n1, obs, n2, it, o, os) ++
+        " xst=" ++ toString it.stream.off ++ "," ++ toString it.stream.buf.length ++ "," ++ toString it.stream.k ++
+        " st=" ++ (if it.stream.wrapped.eof then "1" else "0") ++ "," ++ toString it.stream.wrapped.off ++ "," ++
+        toString it.stream.wrapped.buf.length ++
+        " " ++ showOstream o ++ tail os
+    | _, _, _, _, _, _, _, _ => "bad-op"
   | ["tarspec", b, d, rs, fs, sp, ops] =>
     match b.toNat?, parseData d, rs.toNat?, fs.toNat?, parseSparse sp, parseOps ops with
     | some B, some data, some rs, some fs, some sp, some ops =>
